@@ -98,9 +98,18 @@ def gen_scripts(ctx, quick):
             tail = ([A("shutdown")] if last == "shutdown" else [T(m, False) for m in range(1, n + 1)] + [A("manage")]) + \
                    [F(n - 1), F(n)] + [F(m) for m in range(n - 1, 0, -1)] * 2
             scripts.append({"n": n, "mgmt": True, "deps": deps, "enabled": [True] * n, "steps": steps + tail, "directed": "restop"})
+    # directed: the goroutine that ran a module's start routine is slow to signal the end of that routine - it does so only when
+    # the stop routine of the module has begun; the modules the module depends on must still wait for that stop routine to return
+    for deps, late in (([[], [1]], 2), ([[], [1], [], [2]], 4), ([[], [1], [2]], 3)):
+        n = len(deps)
+        order = list(range(1, n + 1))
+        steps = [A("start")] + [F(m) for m in order] * 2 + [A("shutdown")] + [F(m) for m in reversed(order) if m != late] + \
+                [F(late)] + [F(m) for m in reversed(order)] * 2
+        scripts.append({"n": n, "mgmt": False, "deps": deps, "enabled": [False] * n, "steps": steps, "lateCtrl": late,
+                        "directed": "latectrl"})
     rnd = random.Random(ctx.seed)
     for i, s in enumerate(scripts):
-        s["eager"] = (i % 2 == 0 or bool(s.get("directed"))) and s.get("directed") not in ("starttimeout", "chaindrop", "remanage", "restop")   # an adversarial environment: the next API call follows a return at once
+        s["eager"] = (i % 2 == 0 or bool(s.get("directed"))) and s.get("directed") not in ("starttimeout", "chaindrop", "remanage", "restop", "latectrl")   # an adversarial environment: the next API call follows a return at once
         for st in s["steps"]:
             if st["op"] == "finish" and not st["ok"]:
                 st["how"] = rnd.choice(["error", "panic", "canceled"])
